@@ -4,7 +4,7 @@
 # lists inside NetworkPolicies permuted (rules, peers, ports, policyTypes).  All outputs of one
 # world and format must be byte-identical.  list: txt json csv md dot (+ exposure on/off), diff: txt csv md dot.
 import copy
-from . import c04
+from . import c04, c10
 from .lib import core, gen, listcorr
 
 LIST_FORMATS = ['txt', 'json', 'csv', 'md', 'dot']
@@ -40,6 +40,28 @@ def permute_policy(r, p):
     return q
 
 
+def bias_world(r, W, anp):
+    """inputs whose rendering depends on several map-ordered collections at once"""
+    if not anp and r.random() < 0.35 and W['workloads']:
+        # several named ports of one protocol towards peers that are not in the input: they stay names in the exposure output
+        w = r.choice(W['workloads'])
+        d = r.choice(['ingress', 'egress'])
+        key = 'from' if d == 'ingress' else 'to'
+        names = r.sample(['http', 'dns', 'metrics', 'web', 'admin', 'grpc'], r.randint(3, 5))
+        peer = r.choice([{'namespaceSelector': {}}, {'podSelector': {'matchLabels': {'role': 'x'}}},
+                         {'namespaceSelector': {'matchLabels': {'team': 'y'}}, 'podSelector': {}}])
+        proto = r.choice(['TCP', 'UDP'])
+        W['netpols'].append({'ns': w['ns'], 'name': 'named3', 'podSelector': {}, 'policyTypes': ['Ingress' if d == 'ingress' else 'Egress'],
+                             d: [{key: [peer], 'ports': [{'protocol': proto, 'port': nm} for nm in names]}]})
+    if r.random() < 0.5 and W['workloads']:
+        # Services, Ingresses and Routes: the analyzer fills three maps from them, in document order
+        for w in W['workloads']:
+            if not w['ports']:
+                w['ports'].append({'port': r.choice(gen.PORTS), 'proto': 'TCP', 'name': ''})
+        W['others'] = (W.get('others') or []) + [c10.manifest(o) for o in c10.gen_ingress_objs(r, W)]
+    return W
+
+
 def variant(r, W, how):
     W2 = copy.deepcopy(W)
     if how == 'permute-policies':
@@ -73,7 +95,7 @@ def write_variant(h, name, r, W, how):
 def main(tier):
     run = core.Run('C08', tier)
     run.cov['rule'] = ('random worlds (NetworkPolicy, sometimes ANP/BANP) analysed k times per format (quick 4, thorough 8): unchanged (fresh map-iteration order), documents reordered, re-partitioned into '
-                       'multi-document files, unordered lists inside NetworkPolicies permuted; list {txt,json,csv,md,dot} with exposure off and on, diff {txt,csv,md,dot}; all outputs of one world/format '
+                       'multi-document files, unordered lists inside NetworkPolicies permuted; a third of the worlds carry a rule with 3-5 named ports towards peers outside the input, half carry Services/Ingresses/Routes; list {txt,json,csv,md,dot} with exposure off and on, diff {txt,csv,md,dot}; all outputs of one world/format '
                        'must be byte-identical (an error must stay the same error class); non-trivial = at least 4 policies-or-workloads and a non-empty report; distinct by scenario hash')
     run.stage_proofs()
     b = core.build_go(['verifapi'], run.log)
@@ -91,7 +113,7 @@ def main(tier):
             for i in range(min(shard, n - k)):
                 cid = k + i
                 anp = (cid % 3 == 0)
-                W = gen.gen_world(run.rng, anp=anp)
+                W = bias_world(run.rng, gen.gen_world(run.rng, anp=anp), anp)
                 W2, _ = c04.edit_world(run.rng, W)
                 dirs = [write_variant(h, 'c%d_%d' % (cid, j), run.rng, W, how) for j, how in enumerate(hows)]
                 dirs2 = [write_variant(h, 'd%d_%d' % (cid, j), run.rng, W2, how) for j, how in enumerate(hows)]
